@@ -33,7 +33,14 @@ fn value_json(v: &Value) -> String {
     }
 }
 
-pub struct Pair { label: String, a_sql: String, params: Option<String>, b_sql: String, ordered: bool }
+pub struct Pair { pub label: String, pub a_sql: String, pub params: Option<String>, pub b_sql: String, pub ordered: bool,
+                  /// the MySQL / Postgres renderings of the same statement (inline; Postgres also parameterised): C09 compares them with SQLite's
+                  pub other: Option<(String, String, String, String)> }
+pub fn fixture_json() -> (String, String) {
+    let fx: Vec<String> = FIXTURE.iter().map(|s| format!("\"{}\"", esc(s))).collect();
+    let sn: Vec<String> = SNAPS.iter().map(|s| format!("\"{}\"", esc(s))).collect();
+    (fx.join(","), sn.join(","))
+}
 impl Pair {
     pub fn to_json(&self) -> String {
         let fx: Vec<String> = FIXTURE.iter().map(|s| format!("\"{}\"", esc(s))).collect();
@@ -43,14 +50,19 @@ impl Pair {
     }
 }
 
-fn both<S: QueryStatementWriter>(out: &mut Vec<Pair>, label: &str, s: &S, reference: &str, ordered: bool) {
+fn both<S: QueryStatementWriter>(out: &mut Vec<Pair>, label: &str, s: &S, reference: &str, ordered: bool) { both_p(out, label, s, reference, ordered, false) }
+/// `portable`: the statement uses only features common to the three backends (C09 compares the three renderings)
+fn both_p<S: QueryStatementWriter>(out: &mut Vec<Pair>, label: &str, s: &S, reference: &str, ordered: bool, portable: bool) {
     let inline = std::panic::catch_unwind(std::panic::AssertUnwindSafe(|| s.to_string(SqliteQueryBuilder)));
     let built = std::panic::catch_unwind(std::panic::AssertUnwindSafe(|| s.build(SqliteQueryBuilder)));
-    match inline { Ok(sql) => out.push(Pair { label: format!("{label} [inline]"), a_sql: sql, params: None, b_sql: reference.into(), ordered }),
-                   Err(_) => out.push(Pair { label: format!("{label} [inline]"), a_sql: "-- the renderer refused (panic) a statement of SQLite-supported features".into(), params: None, b_sql: reference.into(), ordered }) }
+    let other = if portable {
+        std::panic::catch_unwind(std::panic::AssertUnwindSafe(|| { let (p, v) = s.build(PostgresQueryBuilder); (s.to_string(MysqlQueryBuilder), s.to_string(PostgresQueryBuilder), p, format!("[{}]", v.0.iter().map(value_json).collect::<Vec<_>>().join(","))) })).ok()
+    } else { None };
+    match inline { Ok(sql) => out.push(Pair { label: format!("{label} [inline]"), a_sql: sql, params: None, b_sql: reference.into(), ordered, other }),
+                   Err(_) => out.push(Pair { label: format!("{label} [inline]"), a_sql: "-- the renderer refused (panic) a statement of SQLite-supported features".into(), params: None, b_sql: reference.into(), ordered, other }) }
     if let Ok((sql, vals)) = built {
         let ps: Vec<String> = vals.0.iter().map(value_json).collect();
-        out.push(Pair { label: format!("{label} [parameterised]"), a_sql: sql, params: Some(format!("[{}]", ps.join(","))), b_sql: reference.into(), ordered });
+        out.push(Pair { label: format!("{label} [parameterised]"), a_sql: sql, params: Some(format!("[{}]", ps.join(","))), b_sql: reference.into(), ordered, other: None });
     }
 }
 
@@ -88,7 +100,8 @@ pub fn cases() -> Vec<Pair> {
         if offset { r += " OFFSET 1"; }
         // without ORDER BY the row order is unspecified (rows compared as multisets; LIMIT without ORDER BY is skipped)
         if limit && !order { continue; }
-        both(&mut out, &format!("select mask={mask}"), &s, &r, order);
+        // (NULLS ordering of a compound select: MySQL's emulation is an ORDER BY EXPRESSION, which SQLite does not allow after a set operation - not comparable on this engine)
+        both_p(&mut out, &format!("select mask={mask}"), &s, &r, order, !(union && order && !group));
     }
     // ---- SELECT: expression forms and the function-name substitutions
     let exprs: Vec<(&str, SimpleExpr, &str)> = vec![
@@ -110,9 +123,9 @@ pub fn cases() -> Vec<Pair> {
     ];
     for (name, e, text) in exprs {
         let s = Query::select().column(a("id")).expr(e.clone()).from(a("t")).order_by(a("id"), Order::Asc).to_owned();
-        both(&mut out, &format!("expr {name}"), &s, &format!("SELECT \"id\", {text} FROM \"t\" ORDER BY \"id\" ASC"), true);
+        both_p(&mut out, &format!("expr {name}"), &s, &format!("SELECT \"id\", {text} FROM \"t\" ORDER BY \"id\" ASC"), true, name != "cast");
         let s = Query::select().column(a("id")).from(a("t")).and_where(e).order_by(a("id"), Order::Asc).to_owned();
-        both(&mut out, &format!("where {name}"), &s, &format!("SELECT \"id\" FROM \"t\" WHERE {text} ORDER BY \"id\" ASC"), true);
+        both_p(&mut out, &format!("where {name}"), &s, &format!("SELECT \"id\" FROM \"t\" WHERE {text} ORDER BY \"id\" ASC"), true, name != "cast");
     }
     // ---- ORDER BY forms: NULLS FIRST / LAST native, ORDER BY FIELD (CASE emulation), several keys in call order
     for (k, nulls) in [None, Some(NullOrdering::First), Some(NullOrdering::Last)].into_iter().enumerate() {
@@ -121,38 +134,38 @@ pub fn cases() -> Vec<Pair> {
             match &nulls { Some(n) => { s.order_by_with_nulls(a("w"), ord.clone(), n.clone()); } None => { s.order_by(a("w"), ord.clone()); } }
             s.order_by(a("id"), Order::Asc);
             let r = format!("SELECT \"id\" FROM \"t\" ORDER BY \"w\" {}{}, \"id\" ASC", if j == 0 { "ASC" } else { "DESC" }, match k { 1 => " NULLS FIRST", 2 => " NULLS LAST", _ => "" });
-            both(&mut out, &format!("order nulls={k} dir={j}"), &s, &r, true);
+            both_p(&mut out, &format!("order nulls={k} dir={j}"), &s, &r, true, true);
         }
     }
     let s = Query::select().column(a("id")).from(a("t")).order_by(a("g"), Order::Field(Values(vec!["b".into(), "a".into()]))).order_by(a("id"), Order::Desc).to_owned();
-    both(&mut out, "order by field", &s, "SELECT \"id\" FROM \"t\" ORDER BY CASE WHEN \"g\" = 'b' THEN 0 WHEN \"g\" = 'a' THEN 1 ELSE 2 END, \"id\" DESC", true);
+    both_p(&mut out, "order by field", &s, "SELECT \"id\" FROM \"t\" ORDER BY CASE WHEN \"g\" = 'b' THEN 0 WHEN \"g\" = 'a' THEN 1 ELSE 2 END, \"id\" DESC", true, true);
     // ---- joins, set operations, CTEs, sub-queries, windows
     for (k, (jt, kw)) in [(JoinType::InnerJoin, "INNER JOIN"), (JoinType::LeftJoin, "LEFT JOIN"), (JoinType::CrossJoin, "CROSS JOIN")].into_iter().enumerate() {
         let mut s = Query::select(); s.column((a("t"), a("id"))).column(a("x")).from(a("t")).order_by((a("t"), a("id")), Order::Asc).order_by(a("x"), Order::Asc);
         if k == 2 { s.join(jt, a("u"), Cond::all()); } else { s.join(jt, a("u"), Cond::all().add(Expr::col((a("u"), a("tid"))).equals((a("t"), a("id")))).add(Expr::col((a("u"), a("x"))).ne("q"))); }
         let on = if k == 2 { " ON TRUE".to_string() } else { " ON \"u\".\"tid\" = \"t\".\"id\" AND \"u\".\"x\" <> 'q'".to_string() };
-        both(&mut out, &format!("join kind={k}"), &s, &format!("SELECT \"t\".\"id\", \"x\" FROM \"t\" {kw} \"u\"{on} ORDER BY \"t\".\"id\" ASC, \"x\" ASC"), true);
+        both_p(&mut out, &format!("join kind={k}"), &s, &format!("SELECT \"t\".\"id\", \"x\" FROM \"t\" {kw} \"u\"{on} ORDER BY \"t\".\"id\" ASC, \"x\" ASC"), true, true);
     }
     for (k, (ut, kw)) in [(UnionType::Distinct, "UNION"), (UnionType::All, "UNION ALL"), (UnionType::Intersect, "INTERSECT"), (UnionType::Except, "EXCEPT")].into_iter().enumerate() {
         let s = Query::select().column(a("id")).from(a("t")).and_where(c("id").lt(5)).union(ut, Query::select().column(a("tid")).from(a("u")).to_owned()).union(UnionType::All, Query::select().expr(Expr::val(77)).to_owned()).order_by(a("id"), Order::Asc).to_owned();
-        both(&mut out, &format!("set operation {k}"), &s, &format!("SELECT \"id\" FROM \"t\" WHERE \"id\" < 5 {kw} SELECT \"tid\" FROM \"u\" UNION ALL SELECT 77 ORDER BY \"id\" ASC"), true);
+        both_p(&mut out, &format!("set operation {k}"), &s, &format!("SELECT \"id\" FROM \"t\" WHERE \"id\" < 5 {kw} SELECT \"tid\" FROM \"u\" UNION ALL SELECT 77 ORDER BY \"id\" ASC"), true, true);
     }
     let s = Query::select().column(a("id")).from_subquery(Query::select().column(a("id")).column(a("v")).from(a("t")).and_where(c("v").gt(20)).to_owned(), a("s")).and_where(c("v").lt(60)).order_by(a("id"), Order::Desc).to_owned();
-    both(&mut out, "from subquery", &s, "SELECT \"id\" FROM (SELECT \"id\", \"v\" FROM \"t\" WHERE \"v\" > 20) AS \"s\" WHERE \"v\" < 60 ORDER BY \"id\" DESC", true);
+    both_p(&mut out, "from subquery", &s, "SELECT \"id\" FROM (SELECT \"id\", \"v\" FROM \"t\" WHERE \"v\" > 20) AS \"s\" WHERE \"v\" < 60 ORDER BY \"id\" DESC", true, true);
     let cte = CommonTableExpression::new().query(Query::select().column(a("id")).column(a("v")).from(a("t")).and_where(c("v").gte(30)).to_owned()).table_name(a("big")).columns([a("i"), a("vv")]).to_owned();
     let s = Query::select().column(a("i")).column(a("vv")).from(a("big")).order_by(a("i"), Order::Asc).to_owned().with(WithClause::new().cte(cte.clone()).to_owned());
-    both(&mut out, "with cte", &s, "WITH \"big\" (\"i\", \"vv\") AS (SELECT \"id\", \"v\" FROM \"t\" WHERE \"v\" >= 30) SELECT \"i\", \"vv\" FROM \"big\" ORDER BY \"i\" ASC", true);
+    both_p(&mut out, "with cte", &s, "WITH \"big\" (\"i\", \"vv\") AS (SELECT \"id\", \"v\" FROM \"t\" WHERE \"v\" >= 30) SELECT \"i\", \"vv\" FROM \"big\" ORDER BY \"i\" ASC", true, true);
     let base = Query::select().expr_as(Expr::val(1), a("n")).to_owned();
     let rec = Query::select().expr(c("n").add(1)).from(a("cnt")).and_where(c("n").lt(4)).to_owned();
     let cte = CommonTableExpression::new().query(base.clone().union(UnionType::All, rec).to_owned()).table_name(a("cnt")).columns([a("n")]).to_owned();
     let s = Query::select().column(a("n")).from(a("cnt")).order_by(a("n"), Order::Asc).to_owned().with(WithClause::new().recursive(true).cte(cte).to_owned());
-    both(&mut out, "with recursive", &s, "WITH RECURSIVE \"cnt\" (\"n\") AS (SELECT 1 AS \"n\" UNION ALL SELECT \"n\" + 1 FROM \"cnt\" WHERE \"n\" < 4) SELECT \"n\" FROM \"cnt\" ORDER BY \"n\" ASC", true);
+    both_p(&mut out, "with recursive", &s, "WITH RECURSIVE \"cnt\" (\"n\") AS (SELECT 1 AS \"n\" UNION ALL SELECT \"n\" + 1 FROM \"cnt\" WHERE \"n\" < 4) SELECT \"n\" FROM \"cnt\" ORDER BY \"n\" ASC", true, true);
     let s = Query::select().column(a("id")).expr_window_as(c("v").sum(), WindowStatement::partition_by(a("g")).order_by(a("id"), Order::Asc).to_owned(), a("run")).from(a("t")).order_by(a("id"), Order::Asc).to_owned();
-    both(&mut out, "window inline", &s, "SELECT \"id\", SUM(\"v\") OVER (PARTITION BY \"g\" ORDER BY \"id\" ASC) AS \"run\" FROM \"t\" ORDER BY \"id\" ASC", true);
+    both_p(&mut out, "window inline", &s, "SELECT \"id\", SUM(\"v\") OVER (PARTITION BY \"g\" ORDER BY \"id\" ASC) AS \"run\" FROM \"t\" ORDER BY \"id\" ASC", true, true);
     let s = Query::select().column(a("id")).expr_window_as(c("v").sum(), WindowStatement::partition_by(a("g")).order_by(a("id"), Order::Asc).frame_between(FrameType::Rows, Frame::Preceding(1), Frame::CurrentRow).to_owned(), a("run")).from(a("t")).order_by(a("id"), Order::Asc).to_owned();
-    both(&mut out, "window frame", &s, "SELECT \"id\", SUM(\"v\") OVER (PARTITION BY \"g\" ORDER BY \"id\" ASC ROWS BETWEEN 1 PRECEDING AND CURRENT ROW) AS \"run\" FROM \"t\" ORDER BY \"id\" ASC", true);
+    both_p(&mut out, "window frame", &s, "SELECT \"id\", SUM(\"v\") OVER (PARTITION BY \"g\" ORDER BY \"id\" ASC ROWS BETWEEN 1 PRECEDING AND CURRENT ROW) AS \"run\" FROM \"t\" ORDER BY \"id\" ASC", true, true);
     let s = Query::select().column(a("id")).expr_window_name_as(c("v").sum(), a("w1"), a("run")).from(a("t")).window(a("w1"), WindowStatement::partition_by(a("g"))).order_by(a("id"), Order::Asc).to_owned();
-    both(&mut out, "window named", &s, "SELECT \"id\", SUM(\"v\") OVER \"w1\" AS \"run\" FROM \"t\" WINDOW \"w1\" AS (PARTITION BY \"g\") ORDER BY \"id\" ASC", true);
+    both_p(&mut out, "window named", &s, "SELECT \"id\", SUM(\"v\") OVER \"w1\" AS \"run\" FROM \"t\" WINDOW \"w1\" AS (PARTITION BY \"g\") ORDER BY \"id\" ASC", true, true);
     let s = Query::select().column(a("id")).from(a("t")).order_by(a("id"), Order::Asc).lock(LockType::Update).to_owned();
     both(&mut out, "lock (omitted on SQLite)", &s, "SELECT \"id\" FROM \"t\" ORDER BY \"id\" ASC", true);
     // ---- INSERT
@@ -182,6 +195,11 @@ pub fn cases() -> Vec<Pair> {
         r += match ret { 1 => " RETURNING \"id\"", 2 => " RETURNING *", _ => "" };
         both(&mut out, &format!("insert shape={shape} conflict={conflict} returning={ret}"), &i, &r.replace("  ", " "), true);
     } } }
+    // plain INSERTs that collide with nothing (portable: the three backends render the same statement)
+    let i = Query::insert().into_table(a("u")).columns([a("id"), a("tid"), a("x")]).values_panic([10.into(), 5.into(), "n1".into()]).values_panic([11.into(), 6.into(), "it's".into()]).to_owned();
+    both_p(&mut out, "insert plain rows", &i, "INSERT INTO \"u\" (\"id\", \"tid\", \"x\") VALUES (10, 5, 'n1'), (11, 6, 'it''s')", true, true);
+    let i = Query::insert().into_table(a("u")).columns([a("id"), a("tid"), a("x")]).select_from(Query::select().expr(c("id").add(20)).column(a("v")).expr(Func::upper(c("g"))).from(a("t")).and_where(c("id").is_in([1, 3, 5])).to_owned()).unwrap().to_owned();
+    both_p(&mut out, "insert plain select", &i, "INSERT INTO \"u\" (\"id\", \"tid\", \"x\") SELECT \"id\" + 20, \"v\", UPPER(\"g\") FROM \"t\" WHERE \"id\" IN (1, 3, 5)", true, true);
     // ---- UPDATE
     for mask in 0..32u32 {
         let bit = |k: u32| mask & (1 << k) != 0;
@@ -204,7 +222,7 @@ pub fn cases() -> Vec<Pair> {
         if !conds.is_empty() { r += " WHERE "; r += &conds.join(" AND "); }
         if order_limit { r += " ORDER BY \"id\" DESC LIMIT 2"; }
         if ret { r += " RETURNING \"id\", \"v\""; }
-        both(&mut out, &format!("update mask={mask}"), &s, &r, false);
+        both_p(&mut out, &format!("update mask={mask}"), &s, &r, false, !from && !order_limit && !ret);
     }
     // ---- DELETE
     for mask in 0..8u32 {
@@ -219,7 +237,7 @@ pub fn cases() -> Vec<Pair> {
         if wher { r += " WHERE \"g\" IS NOT NULL AND \"v\" < 55"; }
         if order_limit { r += " ORDER BY \"v\" DESC LIMIT 2"; }
         if ret { r += " RETURNING \"id\""; }
-        both(&mut out, &format!("delete mask={mask}"), &s, &r, false);
+        both_p(&mut out, &format!("delete mask={mask}"), &s, &r, false, !order_limit && !ret);
     }
     out
 }
